@@ -38,6 +38,8 @@ def untimed_waits(func):
 
 
 def run(ctx):
+    from ..frame import check_frame_attrs
+    check_frame_attrs(ctx, 'C20', 'R4')
     P = ctx.prog
     # ---------------------------------------------------------------- R1
     n_pairs = 0
